@@ -44,7 +44,7 @@ def static_counts(tree):
     for node in ast.walk(tree):
         if isinstance(node, ast.ImportFrom):
             for a in node.names:
-                imports.append(("import", node.module, a.name))
+                imports.append(("import", node.module, a.name.split(".")[0]))
         elif isinstance(node, ast.Call):
             f = node.func
             if isinstance(f, ast.Attribute) and f.attr in ("__setstate__", "update"):
